@@ -491,7 +491,14 @@ def run_check(pid, tier, seed, prop, replay=None):
         lines.append(f"VIOLATION property={pid} replay={path} no-failing-input-found")
     if nviol:
         exit_code = 1
-    ctx.extra["findings"] = [f.to_json() for f in ctx.findings][:30]
+    per_key = Counter()
+    kept = []
+    for f in ctx.findings:
+        per_key[f.key] += 1
+        if per_key[f.key] <= 3 and len(kept) < 60:
+            kept.append(f.to_json())
+    ctx.extra["findings"] = kept
+    ctx.extra["findings_per_key"] = dict(per_key)
     write_evidence(ctx, level, obligations, discharged if proof_ok else min(discharged, max(obligations - 1, 0)), checker_cmd, nviol)
     for l in lines:
         print(l)
